@@ -18,6 +18,7 @@ import (
 	"encoding/json"
 	"fmt"
 	"os"
+	"path/filepath"
 	"runtime/debug"
 	"sort"
 	"strings"
@@ -65,15 +66,27 @@ type outcome struct {
 // runCase executes one case and returns the violated expectations.
 func runCase(c caseSpec) []failure {
 	w := &world{panicHook: &recHook{}, fatalHook: &recHook{}}
+	w.errOut = &recSink{w: w, name: "ErrorOutput", must: never}
 	lvl := c.form.level
-	core, extra := c.core.build(w, lvl, c.form.msg)
-	opts := []zap.Option{zap.WithClock(constClock{}), zap.ErrorOutput(discard{})}
-	if c.dev {
-		opts = append(opts, zap.Development())
-	}
+	dev := c.dev || c.core.forceDev
+	opts := []zap.Option{zap.WithClock(constClock{})}
 	opts = append(opts, c.hook.opts(w)...)
-	opts = append(opts, extra...)
-	logger := c.der.f(zap.New(core, opts...))
+	var logger *zap.Logger
+	if c.core.mk != nil {
+		logger = c.core.mk(w, c.dev, opts)
+	} else {
+		core, extra := c.core.build(w, lvl, c.form.msg)
+		opts = append(opts, zap.ErrorOutput(w.errOut))
+		if c.dev {
+			opts = append(opts, zap.Development())
+		}
+		opts = append(opts, extra...)
+		logger = zap.New(core, opts...)
+	}
+	logger = c.der.f(logger)
+	for i := 0; i < c.core.pre; i++ {
+		logger.Info("c06 earlier line", zap.Int("i", i))
+	}
 
 	w.stub = bridge.StubExit()
 	call, done := c.form.prepare(logger)
@@ -96,6 +109,17 @@ func runCase(c caseSpec) []failure {
 	<-fin
 	done()
 	w.stub.Unstub()
+	var fileData []byte
+	if w.file != nil {
+		st, err := w.file.f.Stat()
+		if err != nil {
+			ev.ToolError("C06: stat scratch: %v", err)
+		}
+		fileData = make([]byte, st.Size()-w.file.off)
+		if _, err := w.file.f.ReadAt(fileData, w.file.off); err != nil && len(fileData) > 0 {
+			ev.ToolError("C06: read scratch: %v", err)
+		}
+	}
 	w.closed = true
 	for _, f := range w.cleanup {
 		f()
@@ -103,12 +127,12 @@ func runCase(c caseSpec) []failure {
 
 	// ---- compare with the reference model
 	cond := c.core.cond(lvl)
-	want := expectedAction(lvl, c.dev, c.hook)
+	want := expectedAction(lvl, dev, c.hook)
 	var fails []failure
 	add := func(kind, detail string) {
 		fails = append(fails, failure{
 			fe: c.form.fe, family: c.form.family, via: c.form.via, kind: kind,
-			cond: lvl.String() + "-" + cond, hook: c.hook.relevant(lvl), core: c.core.name, derived: c.der.name, dev: c.dev,
+			cond: lvl.String() + "-" + cond, hook: c.hook.relevant(lvl), core: c.core.name, derived: c.der.name, dev: dev,
 			detail: detail, caseID: c.id(),
 		})
 	}
@@ -135,7 +159,7 @@ func runCase(c caseSpec) []failure {
 		gotS = "nothing (the call returned normally)"
 	}
 	desc := lazyDesc(func() string {
-		return fmt.Sprintf("%s(%s) [%s, args %s] at %s on core %s (entry %s), development=%v, hooks %s, logger derivation %s", c.form.fe, c.form.via, c.form.level, c.form.variant, lvl, c.core.name, cond, c.dev, c.hook.name(), c.der.name)
+		return fmt.Sprintf("%s(%s) [%s, args %s] at %s on core %s (entry %s), development=%v, hooks %s, logger derivation %s", c.form.fe, c.form.via, c.form.level, c.form.variant, lvl, c.core.name, cond, dev, c.hook.name(), c.der.name)
 	})
 
 	only := func(ok bool) bool { return ok && len(got) == 1 }
@@ -197,12 +221,27 @@ func runCase(c caseSpec) []failure {
 			}
 			continue
 		}
-		if problem := checkLine(s.data, lvl, c.form.msg, c.form.fields); problem != "" {
+		if problem := checkLine(s.data, lvl, c.form.msg, c.form.fields, c.core.pre, c.core.console); problem != "" {
 			add("line-incomplete-at-termination", fmt.Sprintf("%s: sink %s: %s", desc, s.name, problem))
 			continue
 		}
 		if want != actNone && !s.synced {
 			add("sink-not-synced-at-termination", fmt.Sprintf("%s: sink %s holds the line but Sync was not called after the last Write before the action ran (syncs=%d, late syncs=%d)", desc, s.name, s.syncs, s.lateSyncs))
+		}
+	}
+	// a failing Write on the entry under test is reported on the ErrorOutput
+	// before control is lost
+	if c.core.wantReport && !strings.Contains(string(w.errOut.data), errSinkFailure.Error()) {
+		add("write-failure-not-reported-before-termination", fmt.Sprintf("%s: a sink's Write failed on the entry but the logger's ErrorOutput holds %q when the action ran (late writes to it: %d)", desc, w.errOut.data, w.errOut.lateWrites))
+	}
+	// loggers writing to a real file (preset constructors): contents after the call
+	if w.file != nil && w.file.must(lvl) {
+		if problem := checkLine(fileData, lvl, c.form.msg, c.form.fields, 0, c.core.console); problem != "" {
+			kind := "line-incomplete-after-call"
+			if len(fileData) == 0 {
+				kind = "line-missing-after-call"
+			}
+			add(kind, fmt.Sprintf("%s: the file behind stderr/stdout: %s", desc, problem))
 		}
 	}
 	return fails
@@ -388,17 +427,70 @@ func main() {
 
 	// ---- part 1: in-process product (sequential: the exit stub, the global
 	// loggers and the std logger are process-wide)
-	cores := coreKinds()
 	// C06_PART=crash|inproc restricts a run to one part (used when demonstrating
 	// which part catches a mutant); a normal run does both.
 	part := os.Getenv("C06_PART")
-	if part == "crash" {
-		cores = nil
+	if err := registerScheme(); err != nil {
+		ev.ToolError("C06: RegisterSink: %v", err)
 	}
-	hooks := hookSettings(run.Thorough())
-	ders := derivations(run.Thorough())
-	for _, ck := range cores {
+	workBase := filepath.Join(ev.Root, ".work")
+	if st, err := os.Stat(workBase); err != nil || !st.IsDir() {
+		workBase = os.TempDir()
+	}
+	var err error
+	// the preset loggers fsync their output on every terminal entry: keep the
+	// stand-in for stderr/stdout on a memory file system when there is one
+	scratchDir := workBase
+	if st, err := os.Stat("/dev/shm"); err == nil && st.IsDir() {
+		if f, err := os.CreateTemp("/dev/shm", "c06-probe-*"); err == nil {
+			f.Close()
+			os.Remove(f.Name())
+			scratchDir = "/dev/shm"
+		}
+	}
+	scratch, err = os.CreateTemp(scratchDir, "c06-std-*")
+	if err != nil {
+		ev.ToolError("C06: scratch file: %v", err)
+	}
+
+	var kinds []coreKind
+	kinds = append(kinds, coreKinds()...)
+	kinds = append(kinds, faultKinds()...)
+	kinds = append(kinds, configKinds()...)
+	kinds = append(kinds, constructorKinds()...)
+	nKinds := map[string]int{}
+	for _, k := range kinds {
+		nKinds[k.group]++
+	}
+	if part == "crash" {
+		kinds = nil
+	}
+	// hook settings and derivations per group: the healthy product takes the
+	// full sets; failing sinks take the paired hook choices; Config-built and
+	// preset loggers take unset / WriteThenNoop / custom (quick) or the paired
+	// choices (thorough)
+	hooksFull := hookSettings(run.Thorough())
+	hooksPaired := hookSettings(false)
+	hooksSmall := []hookSetting{hooksPaired[0], hooksPaired[2], hooksPaired[4]}
+	dersFull := derivations(run.Thorough())
+	dersSmall := derivations(true)[:2]
+	if run.Thorough() {
+		hooksSmall = hooksPaired
+		dersSmall = derivations(true)[:3]
+	}
+	groupWall := map[string]float64{}
+	groupCases := map[string]int{}
+	for _, ck := range kinds {
+		t1, e1 := time.Now(), evals
+		hooks, ders := hooksFull, dersFull
+		switch ck.group {
+		case "fault":
+			hooks = hooksPaired
+		case "config", "constructor":
+			hooks, ders = hooksSmall, dersSmall
+		}
 		for _, dev := range []bool{false, true} {
+			edev := dev || ck.forceDev
 			for _, hs := range hooks {
 				for _, der := range ders {
 					for _, fm := range d.forms {
@@ -407,19 +499,27 @@ func main() {
 							continue
 						}
 						cond := fm.level.String() + "-" + ck.cond(fm.level)
-						u.note(fm.fe, fm.family, cond, fm.via, hs.relevant(fm.level), ck.name, der.name, dev)
+						u.note(fm.fe, fm.family, cond, fm.via, hs.relevant(fm.level), ck.name, der.name, edev)
 						fs := runCase(c)
 						evals++
-						distinct[fmt.Sprintf("%s|%s|%s|%v|%s", fm.fe, cond, hs.relevant(fm.level), dev, expectedAction(fm.level, dev, hs))] = true
+						distinct[fmt.Sprintf("%s|%s|%s|%s|%v|%s", ck.group, fm.fe, cond, hs.relevant(fm.level), edev, expectedAction(fm.level, edev, hs))] = true
 						fails = append(fails, fs...)
-						if evals%7919 == 1 && len(samples) < 6 {
-							samples = append(samples, map[string]any{"case": c.id(), "expected_action": expectedAction(fm.level, dev, hs).String(), "expected_message": fm.msg})
+						if evals%17911 == 1 && len(samples) < 10 {
+							samples = append(samples, map[string]any{"case": c.id(), "expected_action": expectedAction(fm.level, edev, hs).String(), "expected_message": fm.msg})
 						}
 					}
 				}
 			}
 		}
+		g := ck.group
+		if g == "" {
+			g = "healthy"
+		}
+		groupWall[g] += time.Since(t1).Seconds()
+		groupCases[g] += evals - e1
 	}
+	scratch.Close()
+	os.Remove(scratch.Name())
 	inproc := evals
 
 	// ---- part 2: real processes
@@ -440,7 +540,7 @@ func main() {
 		distinct[fmt.Sprintf("crash|%s|%s|%s", r.sink, r.front, r.level)] = true
 		fails = append(fails, results[i]...)
 		evals++
-		if i%17 == 0 && len(samples) < 10 {
+		if i%17 == 0 && len(samples) < 14 {
 			samples = append(samples, map[string]any{"case": r.id(), "expected_exit_status": r.wantStatus()})
 		}
 	}
@@ -450,6 +550,8 @@ func main() {
 	run.Assume = []string{
 		"zap's exit function is observed through internal/exit.Stub (the bridge): it records that exit was requested and the status, not how often; 'exactly once' is therefore checked for panics, Goexit and custom hooks, 'at least once and nothing else' for the stubbed exit (the real-process part observes the actual exit status)",
 		"the custom hook of the alphabet records and returns; hooks that themselves misbehave are outside the statement",
+		"failing sinks: nothing is demanded of the failing sink's own content; a report on ErrorOutput is demanded only where the sink's Write itself fails on the entry (a BufferedWriteSyncer surfaces the failure at the flush inside Sync, whose error the IO core documents it ignores)",
+		"preset constructors (NewProduction/NewDevelopment/NewExample) write to stderr/stdout, pointed at a scratch file while the logger is built; their file is inspected after the call returns/unwinds rather than at the instant of the action (the recording-sink kinds and the real-process part cover the ordering)",
 		"sinks of cores that do not accept the level, and of sampled-out entries, are not constrained (only 'no Write after the terminal action began')",
 		"outside the process only file bytes and exit status are visible; fsync itself is not observable, so the crash part checks that the bytes reached the file (they left every user-space buffer)",
 		"front ends: every method of *zap.Logger, *zap.SugaredLogger, *zapgrpc.Logger named DPanic*/Panic*/Fatal* or taking a zapcore.Level and returning nothing or a *CheckedEntry; methods with another result type are listed under skipped_methods",
@@ -457,14 +559,19 @@ func main() {
 	run.Finish(map[string]any{
 		"evaluations":         evals,
 		"distinct_nontrivial": len(distinct),
-		"rule":                "in-process: full product cores x development x hook settings (panic hook x fatal hook; quick pairs the i-th choices, thorough the full product) x logger derivations x call forms (front-end method x via x level x argument shape), every case run on the real code with the exit stubbed; real-process: sink family x front end x level in a re-executed child leaving through the real os.Exit / uncaught panic. distinct = distinct (front-end method, level+entry condition, hook setting, development, expected action) classes plus distinct child configurations; every class asserts a terminal action (or its absence for DPanic outside development) and the sink state at that moment",
+		"rule":                "in-process: four groups of logger kinds (healthy core compositions; cores with failing sinks - Write failing always / from the k-th write, tees in both orders, buffered over a failing sink, failing Sync; loggers built by zap.Config over base x DisableStacktrace x DisableCaller x Level x Sampling with Development as the development dimension; the preset constructors NewProduction/NewDevelopment/NewExample), each as the full product kinds x development x hook settings (panic hook x fatal hook; quick pairs the i-th choices, thorough the full product) x logger derivations x call forms (front-end method x via x level x argument shape), every case run on the real code with the exit stubbed; real-process: sink family x front end x level in a re-executed child leaving through the real os.Exit / uncaught panic. distinct = distinct (front-end method, level+entry condition, hook setting, development, expected action) classes plus distinct child configurations; every class asserts a terminal action (or its absence for DPanic outside development) and the sink state at that moment",
 		"samples":             samples,
 		"exhaustive":          true,
 		"inprocess_cases":     inproc,
 		"child_runs":          len(todo),
-		"cores":               len(coreKinds()),
-		"hook_settings":       len(hooks),
-		"derivations":         len(ders),
+		"group_cases":         groupCases,
+		"group_wall_s":        groupWall,
+		"cores":               nKinds[""],
+		"failing_sink_cores":  nKinds["fault"],
+		"config_built_kinds":  nKinds["config"],
+		"constructor_kinds":   nKinds["constructor"],
+		"hook_settings":       len(hooksFull),
+		"derivations":         len(dersFull),
 		"call_forms":          len(d.forms),
 		"front_end_methods":   d.methods,
 		"skipped_methods":     append([]string{}, d.skipped...),
